@@ -34,8 +34,9 @@ var callKindNames = [...]string{"RunProgram", "Callable", "Constructor", "Export
 func callDrains(k int) bool { return k <= KExportFuncNoErr }
 
 type histCall struct {
-	Kind int
-	Body int
+	Kind    int
+	Body    int
+	NoFault bool // "clean" call: advances persistent suspended activations, never faulted
 }
 
 // interruptBound is B of the prefix-of-counterfactual oracle: the property says "bounded", not "immediately".
@@ -354,6 +355,12 @@ function canary() {
   r += new Error('trace').stack.split('\n').length;
   return r;
 }
+// Persistent activations that stay suspended ACROSS calls (created by the setup call, advanced only by clean calls):
+// resuming them rebases their saved stacks on the current VM stack lengths, which is where leaked records would bite.
+var PG = [gen(800001, 4), (function*(){ try { for (const x of mkIt(800003, 5)) { P(800005); yield x; } } finally { P(800006); } })(), genPlain(800007, 3),
+  (function*(){ var a = 0; while (a < 6) { try { a += (yield a) | 1; } finally { P(800009); } } })()];
+PG[1].next(); PG[3].next();
+function advancePG() { var r = []; for (var i = 0; i < PG.length; i++) { var x = PG[i].next(i); r.push(x.value, x.done); } return r.join(); }
 function canaryThrow() { try { throw new RangeError('thrown by canary'); } finally { P(900020); } }
 function canaryNested() { var r = 0; try { r += P(900030); } finally { r += P(900031); } return r; }
 `
@@ -388,12 +395,34 @@ func (e *faultsim) Run(t *core.Tape, want bool) *core.Result {
 			c.Kind = KRunProgram
 		}
 		hist = append(hist, c)
+		if W.Draw(4) == 3 {
+			hist = append(hist, histCall{Kind: W.Draw(2), Body: -1, NoFault: true}) // advancePG(), via RunProgram or Callable
+		}
 	}
 	// canary calls at the end (never faulted): bodies appended so that doCall can address them
 	canaryBase := len(bodies)
-	allBodies := append(append([]genBody(nil), bodies...), genBody{Name: "canary"}, genBody{Name: "canaryThrow"})
-	hist = append(hist, histCall{Kind: KRunProgram, Body: canaryBase}, histCall{Kind: KCallable, Body: canaryBase + 1}, histCall{Kind: KCallable, Body: canaryBase})
-	nfaultable := ncalls
+	allBodies := append(append([]genBody(nil), bodies...), genBody{Name: "canary"}, genBody{Name: "canaryThrow"}, genBody{Name: "advancePG"})
+	for i := range hist {
+		if hist[i].Body < 0 {
+			hist[i].Body = canaryBase + 2
+		}
+	}
+	var faultable []int
+	for i, c := range hist {
+		if !c.NoFault {
+			faultable = append(faultable, i)
+		}
+	}
+	hist = append(hist, histCall{Kind: KRunProgram, Body: canaryBase + 2, NoFault: true}, histCall{Kind: KRunProgram, Body: canaryBase}, histCall{Kind: KCallable, Body: canaryBase + 1}, histCall{Kind: KCallable, Body: canaryBase})
+	nfaultable := len(faultable)
+
+	// buggify: in a third of the runs every growth of the VM value stack moves it to a fresh backing array (stale
+	// aliases of vm.stack held across a call would otherwise only be visible at power-of-two depths)
+	if W.Draw(3) == 2 {
+		goja.VerifForceStackRealloc = func() bool { return true }
+		defer func() { goja.VerifForceStackRealloc = nil }()
+		res.Count("buggify-stack-realloc-runs", 1)
+	}
 
 	render := func(plan map[int]*Fault, idle map[int]int) string {
 		var sb strings.Builder
@@ -532,7 +561,7 @@ func (e *faultsim) Run(t *core.Tape, want bool) *core.Result {
 	idle := map[int]int{}
 	nf := 1 + S.Draw(2)
 	for j := 0; j < nf; j++ {
-		ci := S.Draw(nfaultable)
+		ci := faultable[S.Draw(nfaultable)]
 		if plan[ci] != nil || idle[ci] != 0 {
 			continue
 		}
